@@ -110,6 +110,11 @@ def _errno_set_for_raise(ctx, fi, raise_node, errvar):
     return got
 
 
+def _enoent_only(ctx, fi, h, ex):
+    from .c11 import _only_enoent_silent
+    return _only_enoent_silent(ctx, fi, h, ex)
+
+
 @rule("C04-b")
 def c04_b(ctx: Ctx):
     """Destination-exists mapping at the four directory-creating sites; no dirs_exist_ok; overwrite defaults to False."""
@@ -183,6 +188,9 @@ def c04_b(ctx: Ctx):
             c2 = f"{q}|reraise"
             if w is None:
                 out.append(ctx.ok(R, fi, h, f"{desc}: every other error is re-raised", construct=c2))
+            elif q == SAVE and _enoent_only(ctx, fi, h, ex):
+                # the re-key tolerates ENOENT of either rename ("job not initialised": the enclosing handler of the reference code lets exactly that pass)
+                out.append(ctx.ok(R, fi, h, f"{desc}: every error other than ENOENT is re-raised", construct=c2))
             else:
                 out.append(ctx.viol(R, fi, h, f"{desc}: the handler can fall through without raising: an I/O error is swallowed and the operation reports success",
                                     construct=c2, witness=ctx.cfg(fi).describe_path(w)))
